@@ -153,6 +153,14 @@ def run(ctx):
 
     # ---- CLI: repeatability under hash seeds, -v -l warn immediate write, JSON over TCP ----
     cases = [g.peer() for _ in range(6 if q else 40)]
+    # archetypes whose report carries text assembled from several algorithm names (Terrapin notes): any set/dict-order
+    # dependence of such text shows up as a difference between hash seeds
+    cbc, etm = ['aes128-cbc', 'aes192-cbc', 'aes256-cbc', '3des-cbc'], ['hmac-sha2-256-etm@openssh.com', 'hmac-sha2-512-etm@openssh.com', 'umac-128-etm@openssh.com', 'hmac-sha1-etm@openssh.com']
+    for kexs, encs, macs in ((['curve25519-sha256', 'kex-strict-s-v00@openssh.com'], ['chacha20-poly1305@openssh.com'] + cbc + ['aes128-ctr'], etm + ['hmac-sha2-256']),
+                             (['diffie-hellman-group14-sha256', 'kex-strict-s-v00@openssh.com'], cbc + cbc[:2], etm[:2] + etm[:1]),
+                             (['curve25519-sha256'], ['chacha20-poly1305@openssh.com'] + cbc, etm)):
+        a = dict(cases[0]); a.update(kex=kexs, key=['ssh-ed25519', 'rsa-sha2-512'], enc=encs, mac=macs, banner='SSH-2.0-OpenSSH_9.3')
+        cases.append(a)
     for p in cases:
         p['client_audit'] = False; p['banner'] = p['banner'] or 'SSH-2.0-OpenSSH_8.0'
     outs = {}
